@@ -11,7 +11,6 @@
 //!     (a memory error must not take the harness down) — listed finding F22.
 use bytes::Bytes;
 use futures::FutureExt;
-use std::future::Future;
 use rustrtc::media::error::MediaError;
 use rustrtc::media::frame::{AudioFrame, MediaKind, MediaSample};
 use rustrtc::media::track::{sample_track, MediaStreamTrack, SampleStreamSource, SampleStreamTrack};
@@ -25,7 +24,7 @@ use vh::*;
 #[path = "c20_sched/mod.rs"]
 mod sched;
 use rustrtc::verif_sched as vs;
-use sched::{Shared, TState, WAKE};
+use sched::{Shared, TState};
 
 // ------------------------------------------------------------------------------ payloads
 /// one counter per sample id: how often the payload buffer of that sample was released
@@ -197,10 +196,13 @@ fn run_seq(cap: usize, acts: &[Act]) -> SeqOut {
     let ledger = Ledger::new(nids);
     let mut crets = vec![];
     let mut prets = vec![];
-    let mut oracle: Option<String> = None;
-    let mut fail = |m: String| {
-        if oracle.is_none() {
-            oracle = Some(m);
+    // once the direct oracle has seen a violation the real object may be corrupt (e.g. a value
+    // accepted into a full ring): stop driving it and leak it instead of running its Drop
+    let oracle: std::cell::RefCell<Option<String>> = std::cell::RefCell::new(None);
+    let fail = |m: String| {
+        let mut o = oracle.borrow_mut();
+        if o.is_none() {
+            *o = Some(m);
         }
     };
     let raw = acts.iter().any(|a| matches!(a, Act::Push(_) | Act::Pop));
@@ -211,6 +213,7 @@ fn run_seq(cap: usize, acts: &[Act]) -> SeqOut {
     if raw {
         let ring: SpscRing<Tracked> = SpscRing::with_capacity(cap);
         for a in acts {
+            if oracle.borrow().is_some() { break; }
             match a {
                 Act::Push(v) => match ring.push(tracked(*v, &ledger)) {
                     Ok(()) => {
@@ -256,7 +259,7 @@ fn run_seq(cap: usize, acts: &[Act]) -> SeqOut {
             }
         }
         let before = ledger.total();
-        drop(ring);
+        if oracle.borrow().is_some() { std::mem::forget(ring); } else { drop(ring); }
         dropped_by_ring = ledger.total() - before;
         if dropped_by_ring != fifo.len() as u64 {
             fail(format!("Drop released {} payloads, {} were queued", dropped_by_ring, fifo.len()));
@@ -266,20 +269,28 @@ fn run_seq(cap: usize, acts: &[Act]) -> SeqOut {
         let mut handles: Vec<SampleStreamSource> = vec![source];
         let mut stopped = false;
         let mut eos_seen = false;
+        // after the first send() on a full queue the overflow policy decides which sample is lost; the
+        // property only demands order / no duplicate / only-sent, so from then on only that is checked
+        // here (the exact drop-oldest behaviour is compared with the model)
+        let mut lossy = false;
+        let mut accepted: Vec<u32> = vec![];
+        let mut last_delivered: Option<u32> = None;
         for a in acts {
+            if oracle.borrow().is_some() { break; }
             match a {
                 Act::TrySend(v) => {
                     let Some(h) = handles.first() else { continue };
                     match h.try_send(sample(*v, &ledger)) {
                         Ok(()) => {
-                            if fifo.len() >= cap {
+                            if fifo.len() >= cap && !lossy {
                                 fail(format!("try_send({}) accepted with a full queue", v));
                             }
                             fifo.push_back(*v);
+                            accepted.push(*v);
                             prets.push(Ret::TryOk)
                         }
                         Err(MediaError::WouldBlock) => {
-                            if fifo.len() < cap {
+                            if fifo.len() < cap && !lossy {
                                 fail(format!("try_send({}) = WouldBlock with {} of {} slots used", v, fifo.len(), cap));
                             }
                             prets.push(Ret::WouldBlock)
@@ -296,9 +307,11 @@ fn run_seq(cap: usize, acts: &[Act]) -> SeqOut {
                     match h.send(sample(*v, &ledger)) {
                         Ok(()) => {
                             if fifo.len() >= cap {
-                                fifo.pop_front(); // drop-oldest
+                                lossy = true;
+                                fifo.pop_front(); // documented: drop-oldest
                             }
                             fifo.push_back(*v);
+                            accepted.push(*v);
                             prets.push(Ret::SendOk)
                         }
                         Err(MediaError::Closed) => {
@@ -314,9 +327,11 @@ fn run_seq(cap: usize, acts: &[Act]) -> SeqOut {
                         Ok(()) => {
                             for v in l {
                                 if fifo.len() >= cap {
+                                    lossy = true;
                                     fifo.pop_front();
                                 }
                                 fifo.push_back(*v);
+                                accepted.push(*v);
                                 prets.push(Ret::SendOk);
                             }
                             prets.push(Ret::ManyOk)
@@ -343,9 +358,14 @@ fn run_seq(cap: usize, acts: &[Act]) -> SeqOut {
                             if stopped {
                                 fail(format!("recv delivered {} after stop()", id));
                             }
+                            if !accepted.contains(&id) {
+                                fail(format!("recv returned {} which was never accepted", id));
+                            }
+                            if let Some(l) = last_delivered { if l >= id { fail(format!("recv returned {} after {} (duplicate / reordered)", id, l)); } }
+                            last_delivered = Some(id);
                             match fifo.pop_front() {
                                 Some(e) if e == id => {}
-                                e => fail(format!("recv returned {} but the oldest queued sample is {:?}", id, e)),
+                                e => if !lossy { fail(format!("recv returned {} but the oldest queued sample is {:?}", id, e)) },
                             }
                             delivered.push(id);
                             crets.push(Ret::Recv(id))
@@ -356,7 +376,7 @@ fn run_seq(cap: usize, acts: &[Act]) -> SeqOut {
                         }
                     },
                     Some(Err(MediaError::EndOfStream)) => {
-                        if !stopped && !eos_seen && (!handles.is_empty() || !fifo.is_empty()) {
+                        if !stopped && !eos_seen && (!handles.is_empty() || (!fifo.is_empty() && !lossy)) {
                             fail(format!("end-of-stream with {} live source handles and {} samples queued", handles.len(), fifo.len()));
                         }
                         eos_seen = true;
@@ -364,7 +384,7 @@ fn run_seq(cap: usize, acts: &[Act]) -> SeqOut {
                     }
                     Some(Err(e)) => crets.push(Ret::Bad(format!("{:?}", e))),
                     None => {
-                        if !fifo.is_empty() || handles.is_empty() || stopped {
+                        if (!fifo.is_empty() && !lossy) || handles.is_empty() || stopped {
                             fail(format!("recv pending with {} samples queued, {} source handles, stopped={}", fifo.len(), handles.len(), stopped));
                         }
                         crets.push(Ret::Pending)
@@ -373,12 +393,17 @@ fn run_seq(cap: usize, acts: &[Act]) -> SeqOut {
                 _ => {}
             }
         }
-        drop(handles);
-        let before = ledger.total();
-        drop(track);
+        let before;
+        if oracle.borrow().is_some() {
+            std::mem::forget(handles); std::mem::forget(track); before = ledger.total();
+        } else {
+            drop(handles);
+            before = ledger.total();
+            drop(track);
+        }
         drop(_fb);
         dropped_by_ring = ledger.total() - before;
-        if dropped_by_ring != fifo.len() as u64 {
+        if dropped_by_ring != fifo.len() as u64 && !lossy {
             fail(format!("dropping the track released {} payloads, {} were queued", dropped_by_ring, fifo.len()));
         }
     }
@@ -390,7 +415,7 @@ fn run_seq(cap: usize, acts: &[Act]) -> SeqOut {
         _ => vec![],
     }).collect();
     let leaked: Vec<_> = leak.into_iter().filter(|i| created.contains(i)).collect();
-    if !leaked.is_empty() || !dbl.is_empty() {
+    if (!leaked.is_empty() && oracle.borrow().is_none()) || !dbl.is_empty() {
         fail(format!("payload drop balance: never released {:?}, released twice {:?}", leaked, dbl));
     }
     for r in crets.iter().chain(prets.iter()) {
@@ -399,6 +424,7 @@ fn run_seq(cap: usize, acts: &[Act]) -> SeqOut {
         }
     }
     let _ = delivered;
+    let oracle = oracle.into_inner();
     SeqOut { crets, prets, dropped_by_ring, oracle }
 }
 
@@ -983,7 +1009,7 @@ fn run_conc(case: &ConcCase) -> ConcOut {
     let nops = |t: usize| -> usize { if t == 0 { case.cprog.len() } else if t == 1 { case.nstop } else { case.pprogs[t - 2].len() } };
     'plan: for &t in &case.plan {
         if t >= nthreads { continue; }
-        let (st, woken) = shared.state(t);
+        let (st, _woken) = shared.state(t);
         let step: Result<(), String> = (|| {
             match st {
                 TState::Exited | TState::Running => Ok(()),
@@ -1015,21 +1041,19 @@ fn run_conc(case: &ConcCase) -> ConcOut {
                     if id == vs::EMPTY_LOADS { sched.push(t); }
                     Ok(())
                 }
-                TState::Pending => {
-                    if woken {
-                        let t0 = Instant::now();
-                        while shared.state(t).0 != TState::AtYield(WAKE) {
-                            if t0.elapsed() > Duration::from_secs(5) { return Err("woken consumer did not resume".into()); }
-                            std::thread::yield_now();
-                        }
-                        shared.grant(t)?;
-                        sched.push(t);
-                    }
-                    Ok(())
-                }
+                TState::Pending => Ok(()), // registered and not woken: not enabled in the model either
             }
         })();
         if let Err(e) = step { broken = Some(e); break 'plan; }
+        // a waker may have fired during this step: let the consumer reach its WAKE yield point
+        // before anything else is decided (keeps replays deterministic)
+        {
+            let t0 = Instant::now();
+            while shared.state(0) == (TState::Pending, true) {
+                if t0.elapsed() > Duration::from_secs(5) { broken = Some("woken consumer did not resume".into()); break 'plan; }
+                std::thread::yield_now();
+            }
+        }
         // direct oracle at the moment an end-of-stream is returned
         if t == 0 {
             let cr = results[0].lock().unwrap().clone();
@@ -1172,15 +1196,312 @@ fn replay_case(out: &mut Out, case: &ConcCase, kind: &str, known_class: Option<&
     failed
 }
 
+
+/// the sequential inputs of a run (corpus + generated), a pure function of (seed, tier)
+fn seq_inputs(seed: u64, thorough: bool) -> (Vec<(usize, Vec<Act>, &'static str)>, std::collections::BTreeMap<String, u64>, usize) {
+    let mut rng = Rng::new(seed);
+    let mut inputs: Vec<(usize, Vec<Act>, &'static str)> = vec![];
+    let nseq = if thorough { 12000 } else { 2600 };
+    let mut dist = std::collections::BTreeMap::<String, u64>::new();
+    for cap in [1usize, 2, 3, 4, 5, 8, 64] {
+        // fill, overflow by one, drain, underflow by one -- bare ring
+        let mut a: Vec<Act> = (0..cap as u32 + 1).map(Act::Push).collect();
+        a.extend((0..cap + 1).map(|_| Act::Pop));
+        a.extend((0..2u32).map(|i| Act::Push(cap as u32 + 1 + i)));
+        a.push(Act::Pop);
+        inputs.push((cap, a, "corpus"));
+        // wrap the index a few times around a non-power-of-two / power-of-two capacity
+        let mut a = vec![];
+        for i in 0..(3 * cap as u32 + 2) { a.push(Act::Push(i)); if i % 2 == 1 || cap == 1 { a.push(Act::Pop); } }
+        inputs.push((cap, a, "corpus"));
+        // track: fill with try_send, WouldBlock, send drops the oldest, close, drain, end-of-stream twice
+        let mut a: Vec<Act> = (0..cap as u32).map(Act::TrySend).collect();
+        a.push(Act::TrySend(cap as u32));
+        a.push(Act::Send(cap as u32 + 1));
+        a.push(Act::SendMany(vec![cap as u32 + 2, cap as u32 + 3]));
+        a.push(Act::Recv);
+        a.push(Act::CloneSrc);
+        a.push(Act::DropSrc);
+        a.push(Act::Recv);
+        a.push(Act::DropSrc);
+        a.extend((0..cap + 2).map(|_| Act::Recv));
+        inputs.push((cap, a, "corpus"));
+        // track: recv on an empty open track is pending; stop() ends the stream with samples still queued
+        let a = vec![Act::Recv, Act::Send(0), Act::Send(1), Act::Recv, Act::Stop, Act::Recv, Act::Send(2), Act::DropSrc, Act::Recv];
+        inputs.push((cap, a, "corpus"));
+        // track: source dropped with a clone alive keeps the stream open
+        let a = vec![Act::CloneSrc, Act::DropSrc, Act::TrySend(0), Act::Recv, Act::Recv, Act::DropSrc, Act::Recv];
+        inputs.push((cap, a, "corpus"));
+    }
+
+    // ---- generated sequential schedules
+    for i in 0..nseq {
+        let cap = if i % 9 == 8 { 64 } else { 1 + (i % 8) };
+        let raw = rng.chance(1, 3);
+        let len = if cap == 64 { rng.range(60, 160) } else { rng.range(4, 40) } as usize;
+        let acts = gen_seq(&mut rng, cap, raw, len);
+        *dist.entry(format!("cap{}_{}", cap, if raw { "ring" } else { "track" })).or_default() += 1;
+        inputs.push((cap, acts, "random-sequential"));
+    }
+
+    (inputs, dist, nseq)
+}
+
+/// child mode `c20 --child-seq <tier> <seed> <skip>`: run the sequential inputs from index <skip> on
+/// the real code, one JSON line per finished case, "B <index>" before each -- if the real code
+/// corrupts memory and the process dies, the parent knows which input did it
+fn child_seq(args: &[String]) -> ! {
+    use std::io::Write;
+    silence_panics();
+    let thorough = args[0] == "thorough";
+    let seed: u64 = args[1].parse().unwrap();
+    let skip: usize = args[2].parse().unwrap();
+    let (inputs, _, _) = seq_inputs(seed, thorough);
+    let so = std::io::stdout();
+    for (i, (cap, acts, kind)) in inputs.into_iter().enumerate().skip(skip) {
+        { let mut o = so.lock(); writeln!(o, "B {}", i).unwrap(); o.flush().unwrap(); }
+        let mut tmp = Out { dir: String::new(), cases: vec![] };
+        seq_case(&mut tmp, cap, acts, kind);
+        let c = tmp.cases.pop().unwrap();
+        let line = json!({"term": c.term, "desc": c.desc, "oracle_fail": c.oracle_fail, "nontrivial": c.nontrivial, "key": c.key, "kind": c.kind});
+        { let mut o = so.lock(); writeln!(o, "E {}", line).unwrap(); o.flush().unwrap(); }
+    }
+    std::process::exit(0)
+}
+
+fn run_seq_children(out: &mut Out, tier: &str, seed: u64, thorough: bool) -> (std::collections::BTreeMap<String, u64>, usize, usize) {
+    use std::io::BufRead;
+    let (inputs, dist, nseq) = seq_inputs(seed, thorough);
+    let exe = std::env::current_exe().unwrap();
+    let mut skip = 0usize;
+    let mut crashes = 0usize;
+    while skip < inputs.len() && crashes < 12 {
+        let mut child = std::process::Command::new(&exe)
+            .args(["--child-seq", tier, &seed.to_string(), &skip.to_string()])
+            .stdout(std::process::Stdio::piped()).stderr(std::process::Stdio::null()).spawn().expect("spawn child");
+        let rd = std::io::BufReader::new(child.stdout.take().unwrap());
+        let mut pending: Option<usize> = None;
+        for line in rd.lines().map_while(Result::ok) {
+            if let Some(r) = line.strip_prefix("B ") { pending = r.trim().parse().ok(); }
+            else if let Some(r) = line.strip_prefix("E ") {
+                if let Ok(v) = serde_json::from_str::<serde_json::Value>(r) {
+                    out.push(Case { term: v["term"].as_str().unwrap_or("-").to_string(), desc: v["desc"].clone(),
+                        oracle_fail: v["oracle_fail"].as_str().map(|x| x.to_string()), known: None,
+                        nontrivial: v["nontrivial"].as_bool().unwrap_or(false), key: v["key"].as_str().unwrap_or("").to_string(),
+                        kind: v["kind"].as_str().unwrap_or("?").to_string() });
+                }
+                if let Some(i) = pending.take() { skip = i + 1; }
+            }
+        }
+        let status = child.wait().ok();
+        match pending {
+            Some(i) => {
+                crashes += 1;
+                let (cap, acts, kind) = &inputs[i];
+                out.push(Case { term: "-".into(),
+                    desc: json!({"capacity": cap, "ops": acts.iter().map(|a| format!("{:?}", a)).collect::<Vec<_>>(), "process_status": format!("{:?}", status)}),
+                    oracle_fail: Some(format!("the process died ({:?}) while running this operation sequence on the real queue and dropping it: memory error", status)),
+                    known: None, nontrivial: true, key: format!("{}|{:?}", cap, acts), kind: kind.to_string() });
+                skip = i + 1;
+            }
+            None => { if !status.map(|s| s.success()).unwrap_or(false) { break; } }
+        }
+    }
+    (dist, nseq, crashes)
+}
+
+
+/// the replay inputs of a run: witnesses first, then generated programs + plans
+fn replay_inputs(seed: u64, thorough: bool) -> Vec<(ConcCase, &'static str, Option<&'static str>)> {
+    let rep = |n: usize, t: usize| std::iter::repeat(t).take(n);
+    let mut v: Vec<(ConcCase, &'static str, Option<&'static str>)> = vec![];
+    // witness (C20-F26): the last source is dropped between recv()'s closed check and its await
+    v.push((ConcCase { cap: 2, cprog: vec![COp::Recv], nstop: 0, pprogs: vec![vec![POp::DropSrc]],
+        plan: rep(8, 0).chain(rep(4, 2)).chain(rep(12, 0)).collect() }, "corpus-replay", None));
+    // witness (C20-F26): same window for stop()
+    v.push((ConcCase { cap: 2, cprog: vec![COp::Recv], nstop: 1, pprogs: vec![vec![]],
+        plan: rep(3, 0).chain(rep(3, 1)).chain(rep(12, 0)).collect() }, "corpus-replay", None));
+    // witness (C20-F27): send + drop of the source between recv()'s pop (empty) and its closed check
+    v.push((ConcCase { cap: 2, cprog: vec![COp::Recv, COp::Recv], nstop: 0, pprogs: vec![vec![POp::Send(7), POp::DropSrc]],
+        plan: rep(7, 0).chain(rep(11, 2)).chain(rep(30, 0)).collect() }, "corpus-replay", None));
+    // witness F22: two producers pass the full test together and write the same slot (the first sample is
+    // overwritten without being dropped: a leak here, a data race when the two writes overlap)
+    v.push((ConcCase { cap: 2, cprog: vec![COp::Recv, COp::Recv], nstop: 0, pprogs: vec![vec![POp::Send(10)], vec![POp::Send(1020)]],
+        plan: [2, 2, 2, 2, 3, 3, 3, 3, 2, 3, 2, 3, 2, 3].into_iter().chain(rep(18, 0)).collect() },
+        "corpus-replay-mpsc", Some("multi_producer_shared_source")));
+    let mut rng = Rng::new(seed ^ 0x5EED_0003);
+    for _ in 0..(if thorough { 40_000 } else { 3000 }) {
+        v.push((gen_conc(&mut rng, 1), "random-replay", None));
+    }
+    v
+}
+
+fn case_json(c: &Case) -> serde_json::Value {
+    json!({"term": c.term, "desc": c.desc, "oracle_fail": c.oracle_fail, "known": c.known, "nontrivial": c.nontrivial, "key": c.key, "kind": c.kind})
+}
+fn case_from_json(v: &serde_json::Value) -> Case {
+    Case { term: v["term"].as_str().unwrap_or("-").to_string(), desc: v["desc"].clone(),
+        oracle_fail: v["oracle_fail"].as_str().map(|x| x.to_string()), known: v["known"].as_str().map(|x| x.to_string()),
+        nontrivial: v["nontrivial"].as_bool().unwrap_or(false), key: v["key"].as_str().unwrap_or("").to_string(),
+        kind: v["kind"].as_str().unwrap_or("?").to_string() }
+}
+
+/// child mode `c20 --child-replay <tier> <seed> <skip> <seconds>`
+fn child_replay(args: &[String]) -> ! {
+    use std::io::Write;
+    silence_panics();
+    let thorough = args[0] == "thorough";
+    let seed: u64 = args[1].parse().unwrap();
+    let skip: usize = args[2].parse().unwrap();
+    let secs: u64 = args[3].parse().unwrap();
+    let inputs = replay_inputs(seed, thorough);
+    let so = std::io::stdout();
+    let t0 = Instant::now();
+    for (i, (case, kind, known)) in inputs.iter().enumerate().skip(skip) {
+        if i >= 4 && t0.elapsed() > Duration::from_secs(secs) { break; }
+        { let mut o = so.lock(); writeln!(o, "B {}", i).unwrap(); o.flush().unwrap(); }
+        let mut tmp = Out { dir: String::new(), cases: vec![] };
+        replay_case(&mut tmp, case, kind, *known);
+        let c = tmp.cases.pop().unwrap();
+        { let mut o = so.lock(); writeln!(o, "E {}", case_json(&c)).unwrap(); o.flush().unwrap(); }
+    }
+    std::process::exit(0)
+}
+
+fn run_replay_children(out: &mut Out, tier: &str, seed: u64, thorough: bool) -> usize {
+    use std::io::BufRead;
+    let inputs = replay_inputs(seed, thorough);
+    let exe = std::env::current_exe().unwrap();
+    let total_budget = if thorough { 120u64 } else { 12 };
+    let t0 = Instant::now();
+    let mut skip = 0usize;
+    let mut crashes = 0usize;
+    let mut done = 0usize;
+    while skip < inputs.len() && crashes < 12 {
+        let left = total_budget.saturating_sub(t0.elapsed().as_secs());
+        if skip >= 4 && left == 0 { break; }
+        let mut child = std::process::Command::new(&exe)
+            .args(["--child-replay", tier, &seed.to_string(), &skip.to_string(), &left.max(1).to_string()])
+            .stdout(std::process::Stdio::piped()).stderr(std::process::Stdio::null()).spawn().expect("spawn child");
+        let rd = std::io::BufReader::new(child.stdout.take().unwrap());
+        let mut pending: Option<usize> = None;
+        for line in rd.lines().map_while(Result::ok) {
+            if let Some(r) = line.strip_prefix("B ") { pending = r.trim().parse().ok(); }
+            else if let Some(r) = line.strip_prefix("E ") {
+                if let Ok(v) = serde_json::from_str::<serde_json::Value>(r) { out.push(case_from_json(&v)); done += 1; }
+                if let Some(i) = pending.take() { skip = i + 1; }
+            }
+        }
+        let status = child.wait().ok();
+        match pending {
+            Some(i) => {
+                crashes += 1;
+                let (case, kind, known) = &inputs[i];
+                let what = format!("the process died ({:?}) while this plan was executed step by step on real threads: memory error", status);
+                out.push(Case { term: "-".into(),
+                    desc: json!({"capacity": case.cap, "consumer_program": case.cprog.iter().map(|o| format!("{:?}", o)).collect::<Vec<_>>(), "stop_calls": case.nstop,
+                                 "producer_programs": case.pprogs.iter().map(|p| p.iter().map(|o| format!("{:?}", o)).collect::<Vec<_>>()).collect::<Vec<_>>(),
+                                 "plan": case.plan, "process_status": format!("{:?}", status)}),
+                    oracle_fail: if known.is_none() { Some(what.clone()) } else { None }, known: known.map(|k| k.to_string()),
+                    nontrivial: true, key: format!("{:?}", case), kind: kind.to_string() });
+                skip = i + 1;
+            }
+            None => break,
+        }
+    }
+    done
+}
+
+
+/// child mode `c20 --child-stress <tier> <seed>`: free-running one-producer / one-consumer stress
+fn child_stress(args: &[String]) -> ! {
+    use std::io::Write;
+    silence_panics();
+    let thorough = args[0] == "thorough";
+    let seed: u64 = args[1].parse().unwrap();
+    let begin = |info: serde_json::Value| { let so = std::io::stdout(); let mut o = so.lock(); writeln!(o, "B {}", info).unwrap(); o.flush().unwrap(); };
+    let emit = |out: &mut Out, v: Vec<String>, info: serde_json::Value, kind: &str, known: Option<&str>| {
+        conc_case(out, v, info, kind, known);
+        let c = out.cases.pop().unwrap();
+        let so = std::io::stdout(); let mut o = so.lock(); writeln!(o, "E {}", case_json(&c)).unwrap(); o.flush().unwrap();
+    };
+    let mut out = Out { dir: String::new(), cases: vec![] };
+    let t_conc = Instant::now();
+    let budget = Duration::from_secs(if thorough { 60 } else { 9 });
+    let mut nconc = 0u64;
+    let mut round = 0u64;
+    while t_conc.elapsed() < budget {
+        for cap in [1usize, 2, 3, 7, 8, 64] {
+            begin(json!({"stress": "ring", "capacity": cap}));
+            let (v, info) = stress_ring(cap, if thorough { 400_000 } else { 60_000 });
+            emit(&mut out, v, info, "stress-ring-spsc", None);
+            begin(json!({"stress": "track", "capacity": cap}));
+            for (mode, stop) in [(Mode::Lossless, None), (Mode::Lossy, None), (Mode::Lossy, Some(50u32))] {
+                let cfg = StressCfg { cap, producers: 1, per_producer: if thorough { 60_000 } else { 12_000 }, mode, shared: false,
+                                      stop_after: stop, seed: seed.wrapping_mul(1000).wrapping_add(round) };
+                let (v, info) = stress_track(&cfg);
+                emit(&mut out, v, info, "stress-track-spsc", None);
+                nconc += 1;
+            }
+            // many short-lived tracks: close / drain / end-of-stream races
+            for k in 0..(if thorough { 3000 } else { 400 }) {
+                let cfg = StressCfg { cap, producers: 1, per_producer: 1 + (k % 5) as u32, mode: if k % 2 == 0 { Mode::Lossless } else { Mode::Lossy },
+                                      shared: false, stop_after: None, seed: seed.wrapping_mul(7919).wrapping_add(round * 100_000 + k) };
+                let (v, info) = stress_track(&cfg);
+                if !v.is_empty() || k == 0 {
+                    emit(&mut out, v, info, "stress-track-close", None);
+                }
+                nconc += 1;
+            }
+            if t_conc.elapsed() >= budget { break; }
+        }
+        round += 1;
+    }
+
+    let _ = nconc;
+    std::process::exit(0)
+}
+
+fn run_stress_child(out: &mut Out, tier: &str, seed: u64) -> u64 {
+    use std::io::BufRead;
+    let exe = std::env::current_exe().unwrap();
+    let mut child = std::process::Command::new(&exe).args(["--child-stress", tier, &seed.to_string()])
+        .stdout(std::process::Stdio::piped()).stderr(std::process::Stdio::null()).spawn().expect("spawn child");
+    let rd = std::io::BufReader::new(child.stdout.take().unwrap());
+    let mut pending: Option<String> = None;
+    let mut n = 0u64;
+    for line in rd.lines().map_while(Result::ok) {
+        if let Some(r) = line.strip_prefix("B ") { pending = Some(r.to_string()); }
+        else if let Some(r) = line.strip_prefix("E ") {
+            if let Ok(v) = serde_json::from_str::<serde_json::Value>(r) { out.push(case_from_json(&v)); n += 1; }
+        }
+    }
+    let status = child.wait().ok();
+    if !status.map(|s| s.success()).unwrap_or(false) {
+        out.push(Case { term: "-".into(), desc: json!({"run": pending, "process_status": format!("{:?}", status)}),
+            oracle_fail: Some(format!("the free-running one-producer / one-consumer stress process died ({:?}): memory error in the real queue", status)),
+            known: None, nontrivial: true, key: "stress-child-died".into(), kind: "stress-track-spsc".into() });
+    }
+    n
+}
+
 fn main() {
     let argv: Vec<String> = std::env::args().collect();
     if argv.len() > 2 && argv[1] == "--child-mpsc" {
         child_mpsc(&argv[2..]);
     }
+    if argv.len() > 4 && argv[1] == "--child-seq" {
+        child_seq(&argv[2..]);
+    }
+    if argv.len() > 5 && argv[1] == "--child-replay" {
+        child_replay(&argv[2..]);
+    }
+    if argv.len() > 3 && argv[1] == "--child-stress" {
+        child_stress(&argv[2..]);
+    }
     let args = parse_args();
     silence_panics();
     let thorough = args.tier == "thorough";
-    let mut rng = Rng::new(args.seed);
     let mut out = Out::new(&args.out);
 
     // ---- corpus: build-target assumption, boundary sequences
@@ -1194,107 +1515,24 @@ fn main() {
         assert_traits::<SampleStreamTrack>();
         assert_traits::<SpscRing<u8>>();
     }
-    for cap in [1usize, 2, 3, 4, 5, 8, 64] {
-        // fill, overflow by one, drain, underflow by one -- bare ring
-        let mut a: Vec<Act> = (0..cap as u32 + 1).map(Act::Push).collect();
-        a.extend((0..cap + 1).map(|_| Act::Pop));
-        a.extend((0..2u32).map(|i| Act::Push(cap as u32 + 1 + i)));
-        a.push(Act::Pop);
-        seq_case(&mut out, cap, a, "corpus");
-        // wrap the index a few times around a non-power-of-two / power-of-two capacity
-        let mut a = vec![];
-        for i in 0..(3 * cap as u32 + 2) { a.push(Act::Push(i)); if i % 2 == 1 || cap == 1 { a.push(Act::Pop); } }
-        seq_case(&mut out, cap, a, "corpus");
-        // track: fill with try_send, WouldBlock, send drops the oldest, close, drain, end-of-stream twice
-        let mut a: Vec<Act> = (0..cap as u32).map(Act::TrySend).collect();
-        a.push(Act::TrySend(cap as u32));
-        a.push(Act::Send(cap as u32 + 1));
-        a.push(Act::SendMany(vec![cap as u32 + 2, cap as u32 + 3]));
-        a.push(Act::Recv);
-        a.push(Act::CloneSrc);
-        a.push(Act::DropSrc);
-        a.push(Act::Recv);
-        a.push(Act::DropSrc);
-        a.extend((0..cap + 2).map(|_| Act::Recv));
-        seq_case(&mut out, cap, a, "corpus");
-        // track: recv on an empty open track is pending; stop() ends the stream with samples still queued
-        let a = vec![Act::Recv, Act::Send(0), Act::Send(1), Act::Recv, Act::Stop, Act::Recv, Act::Send(2), Act::DropSrc, Act::Recv];
-        seq_case(&mut out, cap, a, "corpus");
-        // track: source dropped with a clone alive keeps the stream open
-        let a = vec![Act::CloneSrc, Act::DropSrc, Act::TrySend(0), Act::Recv, Act::Recv, Act::DropSrc, Act::Recv];
-        seq_case(&mut out, cap, a, "corpus");
+    let (dist, nseq, seq_crashes) = run_seq_children(&mut out, &args.tier, args.seed, thorough);
+    let _ = seq_crashes;
+
+    // a violation on sequential inputs means the real objects can corrupt memory: the in-process
+    // concurrent parts would only crash the harness and lose the failing inputs found so far
+    let seq_failed = out.cases.iter().any(|c| c.oracle_fail.is_some());
+    if seq_failed {
+        out.finish(json!({"generator": {"sequential": {"cases": nseq, "by_capacity_and_object": dist},
+            "note": "concurrent parts skipped: the direct oracle failed on sequential inputs"}}));
+        return;
     }
 
-    // ---- generated sequential schedules
-    let nseq = if thorough { 12000 } else { 2600 };
-    let mut dist = std::collections::BTreeMap::<String, u64>::new();
-    for i in 0..nseq {
-        let cap = if i % 9 == 8 { 64 } else { 1 + (i % 8) };
-        let raw = rng.chance(1, 3);
-        let len = if cap == 64 { rng.range(60, 160) } else { rng.range(4, 40) } as usize;
-        let acts = gen_seq(&mut rng, cap, raw, len);
-        *dist.entry(format!("cap{}_{}", cap, if raw { "ring" } else { "track" })).or_default() += 1;
-        seq_case(&mut out, cap, acts, "random-sequential");
-    }
+    // ---- (d) schedules replayed on real threads through hook H2 (child process: a memory error of the
+    // real code is attributed to the schedule that caused it)
+    let nrep = run_replay_children(&mut out, &args.tier, args.seed, thorough) as u64;
 
-    // ---- (b) concurrent, one producer thread, one consumer thread
-    let t_conc = Instant::now();
-    let budget = Duration::from_secs(if thorough { 60 } else { 9 });
-    let mut nconc = 0u64;
-    let mut round = 0u64;
-    while t_conc.elapsed() < budget {
-        for cap in [1usize, 2, 3, 7, 8, 64] {
-            let (v, info) = stress_ring(cap, if thorough { 400_000 } else { 60_000 });
-            conc_case(&mut out, v, info, "stress-ring-spsc", None);
-            for (mode, stop) in [(Mode::Lossless, None), (Mode::Lossy, None), (Mode::Lossy, Some(50u32))] {
-                let cfg = StressCfg { cap, producers: 1, per_producer: if thorough { 60_000 } else { 12_000 }, mode, shared: false,
-                                      stop_after: stop, seed: args.seed.wrapping_mul(1000).wrapping_add(round) };
-                let (v, info) = stress_track(&cfg);
-                conc_case(&mut out, v, info, "stress-track-spsc", None);
-                nconc += 1;
-            }
-            // many short-lived tracks: close / drain / end-of-stream races
-            for k in 0..(if thorough { 3000 } else { 400 }) {
-                let cfg = StressCfg { cap, producers: 1, per_producer: 1 + (k % 5) as u32, mode: if k % 2 == 0 { Mode::Lossless } else { Mode::Lossy },
-                                      shared: false, stop_after: None, seed: args.seed.wrapping_mul(7919).wrapping_add(round * 100_000 + k) };
-                let (v, info) = stress_track(&cfg);
-                if !v.is_empty() || k == 0 {
-                    conc_case(&mut out, v, info, "stress-track-close", None);
-                }
-                nconc += 1;
-            }
-            if t_conc.elapsed() >= budget { break; }
-        }
-        round += 1;
-    }
-
-    // ---- (d) schedules replayed on real threads through hook H2
-    let rep = |n: usize, t: usize| std::iter::repeat(t).take(n);
-    // witness: the last source is dropped between recv()'s closed check and its notified().await
-    let lost_wakeup = ConcCase { cap: 2, cprog: vec![COp::Recv], nstop: 0, pprogs: vec![vec![POp::DropSrc]],
-        plan: rep(8, 0).chain(rep(4, 2)).chain(rep(12, 0)).collect() };
-    replay_case(&mut out, &lost_wakeup, "corpus-replay", None);
-    // witness: same window for stop()
-    let lost_wakeup_stop = ConcCase { cap: 2, cprog: vec![COp::Recv], nstop: 1, pprogs: vec![vec![]],
-        plan: rep(3, 0).chain(rep(3, 1)).chain(rep(12, 0)).collect() };
-    replay_case(&mut out, &lost_wakeup_stop, "corpus-replay", None);
-    // witness: send + drop of the source between recv()'s pop (empty) and its closed check
-    let close_race = ConcCase { cap: 2, cprog: vec![COp::Recv, COp::Recv], nstop: 0, pprogs: vec![vec![POp::Send(7), POp::DropSrc]],
-        plan: rep(7, 0).chain(rep(11, 2)).chain(rep(30, 0)).collect() };
-    replay_case(&mut out, &close_race, "corpus-replay", None);
-    // witness F22: two producers pass the full test together and write the same slot (the first sample is
-    // overwritten without being dropped: a leak here, a data race when the two writes overlap)
-    let mpsc_loss = ConcCase { cap: 2, cprog: vec![COp::Recv, COp::Recv], nstop: 0, pprogs: vec![vec![POp::Send(10)], vec![POp::Send(1020)]],
-        plan: [2,2,2,2, 3,3,3,3, 2,3,2,3,2,3].into_iter().chain(rep(18, 0)).collect() };
-    replay_case(&mut out, &mpsc_loss, "corpus-replay-mpsc", Some("multi_producer_shared_source"));
-    let t_rep = Instant::now();
-    let rep_budget = Duration::from_secs(if thorough { 120 } else { 12 });
-    let mut nrep = 0u64;
-    while t_rep.elapsed() < rep_budget && nrep < (if thorough { 40_000 } else { 3000 }) {
-        let c = gen_conc(&mut rng, 1);
-        replay_case(&mut out, &c, "random-replay", None);
-        nrep += 1;
-    }
+    // ---- (b) concurrent, one producer thread, one consumer thread (child process as well)
+    let nconc = run_stress_child(&mut out, &args.tier, args.seed);
 
     // ---- (c) several producer threads on one queue (listed finding F22), child process
     let t_mpsc = Instant::now();
